@@ -356,3 +356,49 @@ MANIFEST_TEXT["C13"] = dict(
     technique="differential property-based testing (used-then-Reset parser vs new parser; two new parsers) plus concurrent execution of independent instances under the Go race detector",
     level="Generated-history exploration; the schedule quantifier is sampled (goroutines x race detector), which finds shared mutable state reliably but enumerates no schedules.",
     note=NOTE_PBT)
+
+CHECKS["C19"] = dict(
+    {"quick": {"tests": [{"test": "TestC19", "checks": 3000, "subchecks": 6},
+                         {"test": "TestC19Runs", "checks": 1500, "subchecks": KINDS7}]},
+     "thorough": {"shards": 16, "tests": [{"test": "TestC19", "checks": 8000, "subchecks": 6},
+                                          {"test": "TestC19Runs", "checks": 4000, "subchecks": KINDS7}]}},
+    rule=("(a)+(b) parser histories as C01 for the six non-optimising kinds: every emitted match ends at the block end or "
+          "the next byte differs from the byte Offset back; for BHP/BDHP a literal directly in front of a match differs from "
+          "the byte Offset before it whenever that byte is still buffered. (c) run clause: stream = prefix . c^R . suffix "
+          "(c: 0x00, 0xff or any byte; R 32..632; GSAP: prefix free of c), every accepted config with BlockSize >= 32 incl. "
+          "WindowSize 1 (hash kinds, OSAP) / 2 (GSAP), flags 0, chunked writes, partial parsing and Shrink so that blocks "
+          "of >= 32 bytes fall inside the run at its start, middle and end, after Shrink and refill: such a block carries "
+          "at most 1 literal byte (hash kinds) / MinMatchLen literal bytes (GSAP, OSAP). Non-trivial: (a) a match longer "
+          "than 8 bytes that ends before the block end, (b) a literal in front of a match with its mirror byte buffered, "
+          "(c) a block inside a run at stream position > 0 after a Shrink > 0."),
+    assumptions=ASSUME_COMMON,
+)
+MANIFEST_TEXT["C19"] = dict(
+    engine="parser-history",
+    technique="stateful property-based testing (rapid): per-match maximality predicate against the input bytes; constructed run inputs with a literal-count bound",
+    level="Generated-history exploration; the run clause uses inputs constructed to place blocks inside runs for every byte value class and minimal windows.",
+    note=NOTE_PBT)
+CHECKS["C20"] = dict(
+    {"quick": {"tests": [{"test": "TestC20", "checks": 5000, "subchecks": KINDS7},
+                         {"test": "TestC20Docs", "checks": 10000, "subchecks": 1},
+                         {"test": "TestC20Reported", "checks": 500, "subchecks": KINDS7}]},
+     "thorough": {"shards": 16, "tests": [{"test": "TestC20", "checks": 50000, "subchecks": KINDS7},
+                                          {"test": "TestC20Docs", "checks": 100000, "subchecks": 1},
+                                          {"test": "TestC20Reported", "checks": 2000, "subchecks": KINDS7}]}},
+    rule=("(1) configuration values of all 7 types with every field zero, from the boundary pool or an arbitrary int, Cost "
+          "any valid UTF-8 string: ParseJSON(json.Marshal(&cfg)) has the same dynamic type and DeepEqual fields; the "
+          "document is rejected by json.Unmarshal into each of the 6 other types; Clone is equal, a distinct pointer, and "
+          "mutating it does not change the original; SetDefaults twice == once and non-zero fields are untouched; "
+          "BufConfig() mirrors the fields. (2) documents: unknown/near-miss Type, Type missing, Type not a string, valid "
+          "Type decoded into another type (all must be rejected), valid and odd raw documents (no panic). (3) accepted "
+          "configurations: ParserConfig()/BufferConfig() equal the defaults-completed configuration (library SetDefaults "
+          "and the harness's own documented-rules completion), and a parser built from the reported configuration emits "
+          "identical blocks on a generated text. Non-trivial: (1) >= 3 non-zero fields incl. a negative or > 2^32 value; "
+          "(2) a document that must be rejected; (3) a configuration with a defaulted field on a text > 20 bytes."),
+    assumptions=ASSUME_COMMON + ["Cost strings are valid UTF-8 (encoding/json replaces invalid bytes, which is not the library's doing)"],
+)
+MANIFEST_TEXT["C20"] = dict(
+    engine="config-algebra",
+    technique="property-based testing (rapid): JSON round trip, algebraic laws (idempotence, independence of clones), differential behaviour of parsers built from reported configurations",
+    level="Generated-value exploration over all configuration types and a boundary pool; thorough adds a native fuzz campaign on ParseJSON (no panic).",
+    note=NOTE_PBT)
